@@ -136,6 +136,7 @@ static int json_patch_apply_add_replace(struct json_object **res,
                                         const char *path, int add, struct json_patch_error *patch_error)
 {
 	struct json_object *value;
+	struct json_object *value_copy = NULL;
 	int rc;
 
 	if (!json_object_object_get_ex(patch_elem, "value", &value)) {
@@ -148,12 +149,20 @@ static int json_patch_apply_add_replace(struct json_object **res,
 		return -1;
 	}
 
-	rc = json_pointer_set_with_array_cb(res, path, json_object_get(value),
+	/* The document gets its own copy: later operations on this location
+	 * must not modify the patch (value may be NULL, i.e. a JSON null).
+	 */
+	if (value != NULL && json_object_deep_copy(value, &value_copy, NULL) < 0) {
+		_set_err(ENOMEM, "Unable to copy the 'value' field");
+		return -1;
+	}
+
+	rc = json_pointer_set_with_array_cb(res, path, value_copy,
 					    json_object_array_insert_idx_cb, &add);
 	if (rc)
 	{
 		_set_err(errno, "Failed to set value at path referenced by 'path' field");
-		json_object_put(value);
+		json_object_put(value_copy);
 	}
 
 	return rc;
@@ -196,8 +205,11 @@ static int json_patch_apply_move_copy(struct json_object **res,
 	json_pointer_array_set_cb array_set_cb;
 	struct json_pointer_get_result from;
 	struct json_object *jfrom;
+	struct json_object *value;
 	const char *from_s;
 	size_t from_s_len;
+	void *priv;
+	int add = 1;
 	int rc;
 
 	if (!json_object_object_get_ex(patch_elem, "from", &jfrom)) {
@@ -239,24 +251,31 @@ static int json_patch_apply_move_copy(struct json_object **res,
 
 	// Note: it's impossible for json_pointer to find the root obj, due
 	// to the path check above, so from.parent is guaranteed non-NULL
-	json_object_get(from.obj);
-
 	if (!move) {
+		/* a copy is a new, independent value, not a second reference */
+		value = NULL;
+		if (from.obj != NULL && json_object_deep_copy(from.obj, &value, NULL) < 0) {
+			_set_err(ENOMEM, "Unable to copy the value referenced by 'from' field");
+			return -1;
+		}
 		array_set_cb = json_object_array_insert_idx_cb;
+		priv = &add;
 	} else {
+		value = json_object_get(from.obj);
 		rc = __json_patch_apply_remove(&from);
 		if (rc < 0) {
-			json_object_put(from.obj);
+			json_object_put(value);
 			return rc;
 		}
 		array_set_cb = json_object_array_move_cb;
+		priv = &from;
 	}
 
-	rc = json_pointer_set_with_array_cb(res, path, from.obj, array_set_cb, &from);
+	rc = json_pointer_set_with_array_cb(res, path, value, array_set_cb, priv);
 	if (rc)
 	{
 		_set_err(errno, "Failed to set value at path referenced by 'path' field");
-		json_object_put(from.obj);
+		json_object_put(value);
 	}
 
 	return rc;
